@@ -55,6 +55,7 @@ pub fn ret_ty(shape: i64, l: i64) -> String {
         12 => format!(" -> Result<{}, std::io::Error>", t),
         13 => format!(" -> std::result::Result<{}, u8>", t),
         14 => format!(" -> std::option::Option<{}>", t),
+        15 => format!(" -> AliasRes<{}, ()>", t),                   // only in traits marked #[int_result(AliasRes)] (header field 2 = 2)
         _ => format!(" -> {}", t),
     }
 }
@@ -66,7 +67,9 @@ pub fn mname(k: usize, row: &[i64]) -> String { if row[1] / 16 > 0 { format!("n{
 pub fn render_trait(name: &str, trait_int: i64, rows: &[Vec<i64>]) -> String {
     let mut s = String::new();
     s.push_str("#[cglue_trait]\n");
-    if trait_int != 0 { s.push_str("#[int_result]\n"); }
+    // header field 2: 0 = none, 1 = #[int_result], 2 = #[int_result(AliasRes)] (type AliasRes<T, E> = Result<T, E>): the alias is one more
+    // spelling of Result; the literal `Result` keeps its meaning
+    if trait_int == 2 { s.push_str("#[int_result(AliasRes)]\n"); } else if trait_int != 0 { s.push_str("#[int_result]\n"); }
     s.push_str(&format!("pub trait {}{} {{\n", name, if generic() { "<T: Copy + 'static>" } else { "" }));
     for (k, r) in rows.iter().enumerate() {
         // intmode: low 2 bits = int_result attribute; +4 = the method has a default body; +8 = explicit lifetime generics <'a>
